@@ -4,10 +4,11 @@ Real code: ScrapliFormatter / ScrapliFileHandler / logging.FileHandler fed recor
 (directly built LogRecords, the real LoggerAdapter of get_instance_logger, enable_basic_logging around real
 driver sessions) and Channel / AsyncChannel over tools/harness SimTransport with every channel_log sink.
 
-The model has one flag per C20 fix (fixes/C20-*.patch).  The flags in effect are *measured* each run by
-replaying the three stored witnesses on the real classes, so that the correspondence is strict on either
-tree; the oracle is the property itself and is the same on both trees — on a tree without a fix its
-violations are attributed to the open finding only when the case satisfies that finding's narrow predicate."""
+The model has one flag per C20 fix (fixes/C20-*.patch, in /repo as 58f1a8a / 93127cf / f3dbcd6).  The flags in
+effect are *measured* each run by replaying the three stored witnesses (corpus/C20) on the real classes, so that
+the correspondence is strict on a tree with or without a fix; the oracle is the property itself and is the same
+on every tree — a violation is attributed to a finding only while that finding is "open" in findings/C20.json /
+known_findings.json AND the case satisfies its narrow predicate (all three are "fixed": nothing is suppressed)."""
 import asyncio, contextlib, io, itertools, json, logging, os, re, shutil, sys, tempfile
 from pathlib import Path
 
@@ -401,15 +402,18 @@ def gen_random(rng, tier):
             "old": rng.choice(["", "old line\n", "no newline", "café\n"]) if (append or rng.random() < 0.2) else "", "recs": recs}
 
 
-def gen_malformed(rng):
-    """records outside the property's domain (arity mismatch, foreign directives): advisory only"""
+def gen_malformed(rng, foreign):
+    """records outside the property's domain: advisory only.  foreign=False: arity mismatches and incomplete
+    directives (the model's %-fragment covers them); foreign=True: directives CPython knows and the model does not"""
     c = gen_random(rng, "quick")
-    bad = [rec("read: %r", ()), rec("read: %r %r", (b"a",)), rec("read: %r", (b"a", b"b")), rec("x %d", (3,)), rec("x %", ("a",)),
-           rec("read: %5r", (b"a",)), rec("%(a)s", ("a",)), rec("read: 100%", (b"a",))]
-    # rec("read: %r", ()) is fine in Python (no args -> no formatting): keeps the generator honest
+    if foreign:
+        bad = [rec("x %d", (3,)), rec("read: %5r", (b"a",)), rec("%(a)s", ("a",)), rec("read: %-4s|", ("a",)), rec("%x", (255,))]
+    else:
+        bad = [rec("read: %r %r", (b"a",)), rec("read: %r", (b"a", b"b")), rec("x %", ("a",)), rec("read: 100%", (b"a",)),
+               rec("%s", ()), rec("plain", ("a",)), rec("read: %r", ())]   # the last two: no directive / no args
     for _ in range(rng.randint(1, 3)):
         c["recs"].insert(rng.randint(0, len(c["recs"])), dict(rng.choice(bad)))
-    c["kind"] = "malformed"
+    c["kind"] = "malformed-foreign" if foreign else "malformed"
     return c
 
 
@@ -598,7 +602,6 @@ def gen_channel(rng, tier):
 
 
 def m_chan_line(case, sessions):
-    from scrapli.logging import get_instance_logger  # noqa: F401  (extras are modelled; host/port/uid are passed as given)
     sink = {"off": "off", "bio": "bio", "true": None, "path": None}[case["sink"]] or ("a" if case.get("mode", "write") == "append" else "w")
     ops = []
     for s in sessions:
@@ -796,7 +799,7 @@ def _run(ck, tier, work):
     nrand = 1500 if tier == "quick" else 25000
     for _ in range(nrand):
         hcases.append(gen_random(ck.rng, tier))
-    mal = [gen_malformed(ck.rng) for _ in range(150 if tier == "quick" else 1500)]
+    mal = [gen_malformed(ck.rng, foreign=i % 3 == 2) for i in range(150 if tier == "quick" else 1500)]
     chcases = [json.loads(json.dumps(c)) for c in corpus if c.get("kind") == "channel"]
     chcases += [gen_channel(ck.rng, tier) for _ in range(120 if tier == "quick" else 1500)]
     e2e = [gen_e2e(ck.rng) for _ in range(25 if tier == "quick" else 250)]
@@ -873,9 +876,9 @@ def _run(ck, tier, work):
         mout = None
 
     # ---------------- judge
-    adv_dis = legacy_dis = 0
+    adv_dis = adv_foreign = legacy_dis = 0
     for kind, c, res, li in plan:
-        if kind in ("handler", "malformed"):
+        if kind in ("handler", "malformed", "malformed-foreign"):
             indom = kind == "handler" and all(o_wf(r) for r in c["recs"])
             if indom:
                 probs, want = judge_handler(c, res)
@@ -894,6 +897,8 @@ def _run(ck, tier, work):
                         ck.disagree("Log model (handler+formatter) vs real classes", c, f"impl={got[-600:]} model={mout[li][-600:]}")
                     elif indom:
                         legacy_dis += 1     # behaviour of a known defect beyond the modelled %-directives
+                    elif kind == "malformed-foreign":
+                        adv_foreign += 1
                     else:
                         adv_dis += 1
                 elif indom:
@@ -961,6 +966,7 @@ def _run(ck, tier, work):
                 ck.traces_validated += 1
     ck.extra["advisory_out_of_domain_cases"] = len(mal)
     ck.extra["advisory_out_of_domain_disagreements"] = adv_dis
+    ck.extra["advisory_out_of_domain_disagreements_foreign_directives"] = adv_foreign
     ck.extra["advisory_disagreements_inside_open_finding_predicates"] = legacy_dis
     ck.exhaustive = True
     ck.extra["exhaustive_scope"] = (f"all record sequences of <= {nmax} records over a 6-kind alphabet (buffered; <= 3 unbuffered) + all 8 extras "
@@ -976,7 +982,7 @@ def replay(path):
     work = Work()
     try:
         kind = c.get("kind", "handler")
-        if kind in ("handler", "malformed", "e2e"):
+        if kind in ("handler", "malformed", "malformed-foreign", "e2e"):
             if kind == "e2e" and "gen" in c:
                 res = run_e2e(c["gen"], work)
                 c = {**c, "recs": res["recs"]}
